@@ -520,10 +520,13 @@ class Gen:
             names["hooks"].append(hname)
             derive.append({"hook": {"id": j + 1, "kind": hk, "k": b64(hname)}})
         prog = {"id": pid, "set": st, "derive": derive, "level": 1 if (abs_prog["lvl"] or st.get("levelField") == "") else 6, "ev": ev_ops,
-                "fin": r.choice(["Msg", "Msgf", "MsgFunc"]) if abs_prog["msg"] else r.choice(["Send", "Msg"]),
+                "fin": r.choice(["Msg", "Msgf", "Msgf0", "MsgFunc"]) if abs_prog["msg"] else r.choice(["Send", "Msg"]),
                 "msg": b64(self.bytes_() or b"m") if abs_prog["msg"] else "",
                 "abs": {"p": abs_prog, "n": names}, "opaque": sorted(set(self.opaque)), "opaqueel": sorted(set(self.opaque_el))}
         if abs_prog["msg"] and prog["msg"] == "":
             prog["msg"] = b64("m")
+        if prog["fin"] == "Msgf0":
+            # Msgf without operands: the message carries per cent signs, which the player doubles in the format it passes
+            prog["msg"] = b64(r.choice([b"100% done", b"%d of %s", b"%", b"50%% off", b"a%"]) + (self.bytes_()[:40] if r.random() < 0.5 else b""))
         prog["abs"]["level"] = prog["level"]
         return prog
